@@ -198,3 +198,15 @@ Theorem Pem_fuel_monotone : forall g toks rx fuel fuel' s e r,
   Pem.Model.parse_root g toks rx fuel' s e = r.
 Proof. exact Pem.FuelMono.parse_root_fuel_mono. Qed.
 Print Assumptions Pem_fuel_monotone.
+
+(** The same with the premises on the input as a boolean ([start_ok_b], sound for [start_ok]): the form
+    that the Pem replay evaluates on every recorded real parse (blocking monitor [H_start_ok]). *)
+From Sq Require Pem.NoPanicMon.
+Theorem Pem_parse_never_panics_monitored : forall g,
+  Pem.NoPanicCert.panic_safe_b g = true -> Pem.Proofs.pem_closed_b g = true ->
+  forall l rx fuel s e p,
+    (s <= e)%N -> (e <= N.of_nat (length l))%N ->
+    Pem.NoPanicMon.start_ok_b g (Pem.Model.toks_of_list l) s = true ->
+    Pem.Model.parse_root g (Pem.Model.toks_of_list l) rx fuel s e <> Pem.Model.RPanic p.
+Proof. exact Pem.NoPanicMon.parse_never_panics_mon. Qed.
+Print Assumptions Pem_parse_never_panics_monitored.
